@@ -9,8 +9,8 @@ R-C13.2  de Bruijn arithmetic of the Instantiator, interpreted on all (index, #i
          fields are kept.
 R-C13.3  `compile_variable_idx` = number of non-monomorphised parameters before the index
          (all masks up to length 4).
-R-C13.4  instantiate_partial: remaining parameters are re-indexed densely in order, tuples
-         and None are marked `preserve`, comptime arguments are instantiated.
+R-C13.4  instantiate_partial, interpreted on all argument lists of length <= 3 (c13_partial.py, below);
+         TupleType.transform keeps `preserve`.
 Not decided: run-time results of monomorphised code, HUGR validity.
 """
 
@@ -209,20 +209,8 @@ def run(ctx: Ctx) -> None:
                   "a type/const variable of a partially monomorphised function is lowered to the wrong HUGR parameter index")
 
     # ------------------------------------------------------------ R-C13.4 instantiate_partial
-    ip = idx.method("FunctionType", "instantiate_partial", "guppylang_internals.tys.ty")
-    txt = ast.unparse(ip.node)
-    facts = {
-        "reindexes_remaining": "param.with_idx(len(remaining_params))" in txt,
-        "keeps_order": "remaining_params.append(" in txt,
-        "instantiates_bounds": "instantiate_bounds(full_inst)" in txt,
-        "preserve_tuple": "TupleType(arg.ty.element_types, preserve=True)" in txt,
-        "preserve_none": "NoneType(preserve=True)" in txt,
-        "comptime_args_instantiated": "arg.transform(inst)" in txt and "comptime_args" in txt,
-        "length_asserted": "len(args) == len(self.params)" in txt,
-    }
-    ctx.check(all(facts.values()), "R-C13.4", f"{ip.qualname}#shape", ip.where, facts,
-              "partial instantiation does not keep the remaining parameters densely re-indexed in order, or forgets to instantiate "
-              "bounds / comptime arguments, or lets instantiated tuples be flattened into rows")
+    from . import c13_partial
+    c13_partial.run(ctx)
     tt = idx.method("TupleType", "transform", "guppylang_internals.tys.ty")
     ctx.check("self.preserve" in ast.unparse(tt.node), "R-C13.4", f"{tt.qualname}#keeps-preserve", tt.where, {},
               "a transformed tuple type loses the flag that keeps instantiated tuples from being flattened")
